@@ -148,6 +148,28 @@ func (store *Store) Write(database int, command []byte) error {
 	store.mut.Lock()
 	defer store.mut.Unlock()
 
+	// Remember where this entry starts. If it cannot be written (and, with the "always" strategy, synced)
+	// completely, the part of it that reached the file is removed again: the caller reports the command as
+	// failed, so it must not come back on restore, and an incomplete entry in the middle of the log would
+	// make every entry appended after it unreadable.
+	start, err := store.rw.Seek(0, io.SeekEnd)
+	if err != nil {
+		return fmt.Errorf("log command error: %+v", err)
+	}
+	previousDatabase := store.currentDatabase
+
+	if err = store.appendEntry(database, command); err != nil {
+		store.currentDatabase = previousDatabase
+		if truncateErr := store.rw.Truncate(start); truncateErr != nil {
+			return fmt.Errorf("%v; removing the incomplete entry failed: %+v", err, truncateErr)
+		}
+		return err
+	}
+
+	return nil
+}
+
+func (store *Store) appendEntry(database int, command []byte) error {
 	// If the database parameter is different from the current database index,
 	// log the SELECT command before logging the incoming command.
 	// This allows us to switch databases appropriately when restoring the state on startup.
